@@ -94,7 +94,7 @@ reg('C03', [('static', 'forwarding'), ('verus', 'isaac'), ('verus', 'isaac64')],
 TB_KANI = ['T9 Kani 0.68 / CBMC 6.11: every harness runs with unwinding assertions; kani::assume only bounds an index or excludes a documented precondition']
 ALL_UNITS = [('verus', u) for u in ('xoshiro', 'xorshift', 'jitter', 'hc128', 'isaac', 'isaac64')]
 
-reg('C05', [('static', 'forwarding'), ('verus', 'xoshiro'), ('verus', 'xorshift'), ('verus', 'jitter'), ('verus', 'isaac'), ('verus', 'isaac64'), ('kani', 'blockrng')],
+reg('C05', [('static', 'forwarding'), ('verus', 'xoshiro'), ('verus', 'xorshift'), ('verus', 'jitter'), ('verus', 'isaac'), ('verus', 'isaac64'), ('kani', 'blockrng'), ('diff', 'stream')],
     thorough=[('static', 'forwarding'), ('verus', 'xoshiro'), ('verus', 'xorshift'), ('verus', 'jitter'), ('verus', 'isaac'), ('verus', 'isaac64'), ('kani', 'blockrng'), ('kani', 'api'), ('diff', 'stream')], fallback=[('diff', 'stream'), ('kani', 'api')],
     level='proof', trusted_base=TB_COMMON + TB_RC + TB_JIT + TB_KANI,
     explanation='trait-level stream-projection contracts (s32/s64/sfill) on every generator; rand_core next_u64_via_u32 / fill_bytes_via_next verified once, generically, for all n (deterministic and relational flavour); BlockRng/BlockRng64 next_u32/next_u64 complete on the real rand_core (dummy core with arbitrary blocks); BlockRng fill_bytes bounded (thorough tier)',
@@ -109,9 +109,10 @@ reg('C09', [('static', 'forwarding'), ('verus', 'xoshiro'), ('verus', 'xorshift'
             ('kani', 'rc_glue'), ('kani', 'seeding'), ('kani', 'hc128_incrate'), ('kani', 'isaac_incrate'), ('kani', 'isaac64_incrate')],
     level='proof', trusted_base=TB_COMMON + TB_RC + TB_KANI,
     explanation='seed_from_u64 == from_seed(documented expansion) (Verus for the xoshiro family and ISAAC; Kani against a PCG32 twin for XorShiftRng and Hc128Rng); from_rng/try_from_rng: exactly one seed worth of bytes, same generator, source error returned unchanged (Kani with recording sources; XorShift redraw loop in Verus)')
-reg('C10', ALL_UNITS, thorough=ALL_UNITS + [('kani', 'hc128_incrate'), ('diff', 'clone')], fallback=[('diff', 'clone'), ('kani', 'hc128_incrate')], level='proof', trusted_base=TB_COMMON + TB_RC,
+reg('C10', [('static', 'forwarding')] + ALL_UNITS + [('diff', 'clone')], thorough=[('static', 'forwarding')] + ALL_UNITS + [('kani', 'hc128_incrate'), ('diff', 'clone')], fallback=[('diff', 'clone'), ('kani', 'hc128_incrate')], level='proof', trusted_base=TB_COMMON + TB_RC,
     explanation='clone copies every field, == holds iff all state is equal (derived and hand-written impls, incl. Hc128Rng core+index); every operation under contract determines result and final state from the old state (the state clauses), so equal states have identical futures',
-    assumptions=['IsaacRng/Isaac64Rng derive Clone over rand_core BlockRng (dependency derive output); they have no PartialEq'])
+    assumptions=['IsaacRng/Isaac64Rng/Hc128Rng derive Clone over rand_core BlockRng (dependency derive output): the derived body is pinned by a forwarding obligation; IsaacRng/Isaac64Rng have no PartialEq',
+                 'diff:clone (clone and clone_from at 20 x 20 read positions per generator) is an exploration run, listed as bounded and never counted as proved'])
 reg('C11', [('kani', 'serde_rt'), ('sweep', 'isaac_serde')], thorough=[('kani', 'serde_rt'), ('sweep', 'isaac_serde'), ('kani', 'isaac_incrate'), ('kani', 'isaac64_incrate')], level='proof', trusted_base=TB_KANI + ['serde derive output and bincode are symbolically executed as ordinary code'],
     explanation='bincode round trip through the real derive output for an arbitrary state of each of the 16 small generators: restored == original (full-state equality, C10) and the original is untouched',
     assumptions=['IsaacRng / Isaac64Rng: BOUNDED stand-in (never counted as proved): native sweep over every snapshot point (all buffer indices, pending half or not) for 3 seeds on the real crates; the core with arbitrary contents through derive output + isaac_array_serde is a Kani harness in the thorough tier (token serde format kani/incrate/tokfmt.rs; bincode and the whole-generator harness exceed CBMC: 14 GB / 50 min)'])
